@@ -1,20 +1,325 @@
-"""Run-level property checks (C01, C02, C04-C08, C16, C18)."""
+"""Run-level property checks (C01, C02, C04-C08, C16, C18): TLC on the design model, scenarios replayed on the real
+binary, recorded traces judged by Observe.tla."""
+import json
+import random
+
 import common
 import runlevel as rl
 from common import Verdict, run_tlc, require_tlc_ok, log
 
+S = rl.S
+EXTRA = {"notes.txt": "not a source file\n", "src/readme.md": "out of scope\n"}
 
-def model_step(v, cfg, need=(), module="MCRun.tla"):
-    r = run_tlc(module, cfg, workers=min(12, common.NCPU))
+
+def model_step(v, cfg, need=(), module="MCRun.tla", workers=None):
+    r = run_tlc(module, cfg, workers=workers or min(12, common.NCPU))
     require_tlc_ok(r, cfg, need_actions=need)
     v.add_tlc(r, cfg)
     log("[tlc] %s: %d distinct states, %d generated, depth %d, %.1fs" % (cfg, r.distinct, r.generated, r.depth, r.wall))
     return r
 
 
+def expect_counterexample(v, cfg, invariants):
+    """Regression for the model itself: an as-found / known-finding configuration must still be refuted."""
+    r = run_tlc("MCRun.tla", cfg, workers=min(8, common.NCPU), coverage=False)
+    if r.violated not in invariants:
+        raise common.ToolError("expected TLC to refute one of %s in %s but got violated=%s error=%s" % (
+            invariants, cfg, r.violated, (r.error or "")[:300]))
+    v.cov.setdefault("expected_counterexamples", []).append({"cfg": cfg, "violated": r.violated,
+                                                             "states_generated": r.generated})
+    log("[tlc] %s: counterexample for %s found as expected (%d states)" % (cfg, r.violated, r.generated))
+
+
+def _unq(line, tag):
+    body = line[len(tag) + 2:-1].replace('\\"', '"').replace("\\\\", "\\")
+    return json.loads(body)
+
+
+def tlc_dump(r, tag):
+    out, seen = [], set()
+    for line in r.out.splitlines():
+        line = line.strip()
+        if line.startswith('"%s|' % tag):
+            if line in seen:
+                continue
+            seen.add(line)
+            out.append(_unq(line, tag))
+    return out
+
+
+def simulate_histories(cfg, num, depth=300):
+    """Behaviours of the model (developer edits and runs) printed by the DumpHist pseudo-invariant."""
+    r = run_tlc("MCRun.tla", cfg, workers=1, simulate=num, depth=depth, coverage=False, seed_val=common.seed() + 1,
+                timeout=900)
+    if r.violated or (r.error and "HIST|" not in r.out):
+        raise common.ToolError("simulation failed on %s: %s %s" % (cfg, r.violated, (r.error or "")[:500]))
+    hists = tlc_dump(r, "HIST")
+    keys = [json.dumps(h["hist"], sort_keys=True) for h in hists]
+    keep = []
+    for i, h in enumerate(hists):
+        pre = keys[i][:-1]
+        if any(j != i and keys[j].startswith(pre) and len(keys[j]) > len(keys[i]) for j in range(len(hists))):
+            continue
+        keep.append(h)
+    return keep, r
+
+
+def scen_from_model(state, name, structured=False, use_cache=None, base=0, maxid=None, **kw):
+    """A Scenario from a model state {tree, lock, present, bad}; abstract IDs are embedded with `base`."""
+    nfiles = len(state["tree"])
+    names = ["f%d.rs" % (i + 1) for i in range(nfiles)]
+
+    def conv(slots):
+        return [S(s["uid"], ref=None if s["ref"] < 0 else s["ref"] + base, kind=s["kind"]) for s in slots]
+    tree = {names[i]: conv(state["tree"][i]) for i in range(nfiles) if (i + 1) in state["present"]}
+    lock = None if state["lock"] == -2 else ("corrupt" if state["lock"] == -1 else state["lock"])
+    return rl.Scenario(name, tree, lock=lock, structured=structured, names=names, use_cache=use_cache, base=base,
+                       maxid=maxid, bad=tuple(names[i - 1] for i in state.get("bad", [])), **kw)
+
+
+def replay_model_histories(binary, hists, batch, v):
+    jobs = []
+    for i, mh in enumerate(hists):
+        structured = (i % 2 == 1)
+        sc = scen_from_model(mh["hist"][0], "model-history-%d" % i, structured=structured)
+        res = rl.planned_runs(binary, sc, [[("model", mh["hist"][1:])]], batch, v)
+        fin = res[0]["final"]
+        names = sc.names
+        mrefs = len([s for f in mh["tree"] for s in f if s["ref"] >= 0])
+        rrefs = len([s for n in fin["tree"] for s in fin["tree"][n] if s["ref"] is not None])
+        mhas = sorted((s["uid"], s["ref"] >= 0) for f in mh["tree"] for s in f)
+        rhas = sorted((s["uid"], s["ref"] is not None) for n in fin["tree"] for s in fin["tree"][n])
+        if (mrefs, mhas, mh["lock"]) != (rrefs, rhas, fin["lock"]):
+            v.drift.append("model history %d: predicted %d refs lock=%s, observed %d refs lock=%s" % (
+                i, mrefs, mh["lock"], rrefs, fin["lock"]))
+
+
+# ---------------------------------------------------------------------------------------------
+
+def c01(tier):
+    v = Verdict("C01", tier)
+    r = model_step(v, "intended/C01.cfg", need=("Pass1File", "Pass2Next", "WriteSlot", "RenameTmp", "LockWrite"))
+    if tier == "thorough":
+        model_step(v, "intended/C01big.cfg")
+    expect_counterexample(v, "asfound/C01wrap.cfg", ("InvUniqueInRange",))
+    pre = tlc_dump(r, "INIT")
+    log("[dump] %d pre-states from TLC" % len(pre))
+    binary = common.build_breadlog()
+    batch = rl.Batch()
+    MAXID = 4
+
+    def nontrivial(st):
+        return any(s["ref"] < 0 and s["kind"] == "plain" for f in st["tree"] for s in f)
+
+    def boundary(st):
+        refs = [s["ref"] for f in st["tree"] for s in f if s["ref"] >= 0]
+        return nontrivial(st) and (MAXID in refs or MAXID - 1 in refs or st["lock"] >= MAXID - 1 or 0 in refs)
+    nt = [st for st in pre if nontrivial(st)]
+    rnd = random.Random(common.seed())
+    if tier == "thorough":
+        chosen = nt
+    else:
+        b = [st for st in nt if boundary(st)]
+        rnd.shuffle(b)
+        rest = [st for st in nt if not boundary(st)]
+        rnd.shuffle(rest)
+        chosen = b[:260] + rest[:260]
+    jobs = 0
+    scen_steps = []
+    for i, st in enumerate(chosen):
+        has_ref = any(s["ref"] >= 0 for f in st["tree"] for s in f)
+        for cache in ((True, False) if tier == "thorough" else (rnd.choice((True, False)),)):
+            for structured in ((False, True) if tier == "thorough" else (bool(i % 2),)):
+                embeds = [0]
+                # the high embedding maps MaxId to u32::MAX; "maximum over nothing is 0 -> start at 1" is not
+                # shift-invariant, so it needs an existing ID or a usable lock value
+                if has_ref or (cache and st["lock"] >= 0):
+                    embeds.append(rl.bl.U32MAX - MAXID)
+                for base in embeds:
+                    sc = scen_from_model(st, "pre-%d-%s-%s-%s" % (i, "c" if cache else "n", "s" if structured else "u",
+                                                                   "hi" if base else "lo"),
+                                         structured=structured, use_cache=cache, base=base)
+                    scen_steps.append(sc)
+    # run them (one edit run each), in parallel
+    import multiprocessing
+    jobs = [{"binary": binary, "scen": sc, "steps": [("edit", "")], "follow": None} for sc in scen_steps]
+    results = rl.run_jobs(jobs)
+    for sc, res in zip(scen_steps, results):
+        batch.add_events(res["events"], {"scenario": sc.name, "scenario_desc": sc.describe(), "steps": [["edit", ""]],
+                                         "sig": {"mode": "edit", "fault": "none", "structured": bool(sc.kw["structured"]),
+                                                 "embedding": "high" if sc.kw["base"] else "low"}})
+        v.evaluated((json.dumps(sc.tree, sort_keys=True), str(sc.kw["lock"]), sc.kw["use_cache"], sc.kw["structured"], sc.kw["base"]))
+        v.sample({"tree": sc.tree, "lock": sc.kw["lock"], "use_cache": sc.kw["use_cache"], "structured": sc.kw["structured"],
+                  "exits": res["exits"], "after": res["final"]})
+    log("[replay] %d pre-state executions (%d model pre-states with something to insert, of %d)" % (len(jobs), len(chosen), len(pre)))
+    batch.judge(v, {"C01"})
+    v.cov["exhaustive"] = (tier == "thorough")
+    v.cov["rule"] = ("every initial state of intended/C01.cfg (2 files x <=2 statements, existing IDs in {none,0,1,Max-1,Max}, "
+                     "unusable/ignored statements, every lock value) that has a statement to fill, concretised with base 0 and with "
+                     "Max = u32::MAX, both styles, cache on/off (quick tier: boundary states + seeded sample); distinct = concrete scenario")
+    v.assumptions += ["the allocator only compares, increments and tests IDs, so shifting all IDs by a constant preserves its behaviour "
+                      "(used to reach the u32 boundary with a small model)"]
+    return v.finish()
+
+
+def c02(tier):
+    v = Verdict("C02", tier)
+    model_step(v, "intended/C02.cfg" if tier == "thorough" else "intended/C02quick.cfg",
+               need=("DevAdd", "DevDel", "DevDelFile", "DevAddFile", "Signal", "LockWrite", "RenameTmp", "CreateTmp"))
+    expect_counterexample(v, "asfound/C02kill.cfg", ("IdleLockDominates", "InvNoReuse"))
+    expect_counterexample(v, "asfound/C02lockfault.cfg", ("IdleLockDominates", "InvNoReuse"))
+    binary = common.build_breadlog()
+    batch = rl.Batch()
+    hists, r = simulate_histories("intended/C02sim.cfg", 400 if tier == "thorough" else 60)
+    log("[sim] %d distinct model histories" % len(hists))
+    replay_model_histories(binary, hists, batch, v)
+    kinds = ["EIO", "INT", "TERM", "kill_before", "kill_after"]
+    if tier == "thorough":
+        kinds += ["ENOSPC", "EACCES", "short"]
+    scens = []
+    for structured in (False, True):
+        scens.append(rl.Scenario("stale-lock", {"f1.rs": [S(11), S(12, ref=3)], "f2.rs": [S(21), S(22)]},
+                                 lock=10, structured=structured))
+        scens.append(rl.Scenario("no-lock-yet", {"f1.rs": [S(11)], "f2.rs": [S(21, ref=4), S(22)],
+                                                 "f3.rs": [S(31)]}, lock=None, structured=structured))
+    if tier != "thorough":
+        scens = scens[:3]
+    for sc in scens:
+        K, n = rl.sweep(binary, sc, "edit", kinds, batch, v, follow="c02")
+        log("[sweep] %s: %d operations, %d histories" % (sc.name, K, n))
+    batch.judge(v, {"C02"})
+    v.cov["rule"] = ("(a) behaviours of BreadlogRun (developer edits and runs) obtained by TLC simulation and replayed end to "
+                     "end; (b) every operation k of an edit run x {EIO, SIGINT, SIGTERM, kill before, kill after} followed by "
+                     "'delete the highest-numbered statement, add statements, edit' twice; Observe.tla keeps the ghost relation "
+                     "ID -> statement over the whole history; distinct = (scenario, k, kind) or the step list")
+    v.assumptions += ["developer edits are modelled as adding/deleting whole statements and files",
+                      "the lock file is kept between runs (never deleted by the developer)"]
+    return v.finish()
+
+
+def c04(tier):
+    v = Verdict("C04", tier)
+    model_step(v, "intended/C04.cfg", need=("ScanFile", "Signal", "Kill"))
+    binary = common.build_breadlog()
+    batch = rl.Batch()
+    n = 0
+    for structured in (False, True):
+        for use_cache in (None, True, False):
+            for lock in (None, 7, "corrupt", "empty"):
+                for tree in ({"f1.rs": [S(11), S(12, ref=3)], "f2.rs": [S(21)]},
+                             {"f1.rs": [S(11, ref=1)], "f2.rs": [S(21, ref=2), S(22, kind="unusable")]},
+                             {"f1.rs": [S(11)], "f2.rs": []}):
+                    for bad in ((), ("f2.rs",)):
+                        sc = rl.Scenario("cfg-%d" % n, tree, lock=lock, structured=structured, use_cache=use_cache,
+                                         bad=bad, extra_files=EXTRA)
+                        n += 1
+                        rl.planned_runs(binary, sc, [[("check", "")]], batch, v,
+                                        sigbase={"use_cache": use_cache, "lock": str(lock)})
+    for cc in ("missing", "invalid", "nosourcedir", "sourcedirfile", "noinscope"):
+        sc = rl.Scenario("cfgerr-" + cc, {"f1.rs": [S(11)]}, lock=3, config_class=cc, extra_files=EXTRA)
+        rl.planned_runs(binary, sc, [[("check", "")]], batch, v, sigbase={"config_class": cc})
+    kinds = ["EIO", "EACCES", "TERM", "INT", "kill_after"] if tier == "thorough" else ["EIO", "TERM", "kill_after"]
+    for structured in (False, True):
+        for sc in rl.small_trees(structured=structured, lock=5):
+            sc.kw["extra_files"] = EXTRA
+            rl.sweep(binary, sc, "check", kinds, batch, v)
+    batch.judge(v, {"C04"})
+    v.cov["rule"] = ("--check on every combination of (structured, use_cache omitted/true/false, lock absent/valid/corrupt/"
+                     "empty, tree class, unreadable file), configuration error classes, plus faults/signals/kill at every "
+                     "operation of a check run; no mutating operation in the trace and an identical deep snapshot (names, types, "
+                     "modes, inodes, mtimes, contents) of project, config and temp directories")
+    return v.finish()
+
+
+def c05(tier):
+    v = Verdict("C05", tier)
+    r = model_step(v, "intended/C05.cfg", need=("ScanFile", "RenameTmp"))
+    binary = common.build_breadlog()
+    batch = rl.Batch()
+    rnd = random.Random(common.seed())
+    # (a) model pre-states: check, then edit, then check
+    r1 = run_tlc("MCRun.tla", "intended/C01.cfg", workers=min(12, common.NCPU), coverage=False)
+    pre = [st for st in tlc_dump(r1, "INIT")]
+    rnd.shuffle(pre)
+    pre = pre[:(1500 if tier == "thorough" else 250)]
+    scs = []
+    for i, st in enumerate(pre):
+        scs.append(scen_from_model(st, "pre-%d" % i, structured=bool(i % 2), use_cache=(None, True, False)[i % 3],
+                                   crlf=(i % 5 == 0), unicode_prelude=(i % 3 == 0)))
+    jobs = [{"binary": binary, "scen": sc, "steps": [("check", ""), ("edit", ""), ("check", "")]} for sc in scs]
+    for sc, res in zip(scs, rl.run_jobs(jobs)):
+        batch.add_events(res["events"], {"scenario": sc.name, "scenario_desc": sc.describe(),
+                                         "steps": [["check", ""], ["edit", ""], ["check", ""]],
+                                         "sig": {"mode": "check+edit", "fault": "none", "structured": bool(sc.kw["structured"])}})
+        v.evaluated((json.dumps(sc.tree, sort_keys=True), str(sc.kw["lock"]), sc.kw["structured"], sc.kw["crlf"]))
+        v.sample({"tree": sc.tree, "structured": sc.kw["structured"], "exits": res["exits"]})
+    # (b) unreadable files next to readable ones; all files unreadable
+    for structured in (False, True):
+        for bad in (("f2.rs",), ("f1.rs", "f2.rs")):
+            sc = rl.Scenario("bad-%d" % len(bad), {"f1.rs": [S(11), S(12, ref=3)], "f2.rs": [S(21)]}, structured=structured, bad=bad)
+            rl.planned_runs(binary, sc, [[("check", ""), ("edit", ""), ("check", "")]], batch, v, sigbase={"bad": len(bad)})
+    # (c) rename failures: the printed count must be the number actually inserted
+    for sc in rl.small_trees():
+        rl.planned_runs(binary, sc, [[("edit", "op=rename,nth=1:errno=5")], [("edit", "op=rename,nth=0:errno=18")]], batch, v)
+    batch.judge(v, {"C05"})
+    v.cov["rule"] = ("check, edit, check on model pre-states (seeded sample in quick tier) rendered with LF/CRLF and multi-byte "
+                     "prelude in both styles; reported (file, line) mapped to statements, reported (file, line, column) compared "
+                     "with the insertion offsets of the following edit converted by an independent line/column counter")
+    return v.finish()
+
+
+def c06(tier):
+    v = Verdict("C06", tier)
+    model_step(v, "intended/C06.cfg", need=("ScanFile", "RenameTmp", "DevAdd"))
+    binary = common.build_breadlog()
+    batch = rl.Batch()
+    rnd = random.Random(common.seed() + 6)
+    r1 = run_tlc("MCRun.tla", "intended/C01.cfg", workers=min(12, common.NCPU), coverage=False)
+    pre = [st for st in tlc_dump(r1, "INIT") if any(s["ref"] < 0 and s["kind"] == "plain" for f in st["tree"] for s in f)
+           and st["lock"] != 0]
+    rnd.shuffle(pre)
+    pre = pre[:(1500 if tier == "thorough" else 250)]
+    scs, jobs = [], []
+    for i, st in enumerate(pre):
+        # stay clear of ID exhaustion: base 0 embedding
+        sc = scen_from_model(st, "pre-%d" % i, structured=bool(i % 2), use_cache=(None, True, False)[i % 3],
+                             crlf=(i % 4 == 0), pad=(3000 if i % 7 == 0 else 0))
+        scs.append(sc)
+        steps = [("check", ""), ("edit", ""), ("check", ""), ("edit", ""), ("lock", None)]
+        # read-back: remove the lock, add a statement, edit again -> the new ID must exceed every ID just written
+        t2 = {n: list(sl) for n, sl in sc.tree.items()}
+        jobs.append({"binary": binary, "scen": sc, "steps": steps, "follow": "readback"})
+    rl.FOLLOW["readback"] = follow_readback
+    for sc, res in zip(scs, rl.run_jobs(jobs)):
+        batch.add_events(res["events"], {"scenario": sc.name, "scenario_desc": sc.describe(),
+                                         "steps": [list(s) for s in jobs[0]["steps"]], "follow": "readback",
+                                         "sig": {"mode": "fixpoint", "fault": "none", "structured": bool(sc.kw["structured"])}})
+        v.evaluated((json.dumps(sc.tree, sort_keys=True), str(sc.kw["lock"]), sc.kw["structured"], sc.kw["use_cache"]))
+        v.sample({"tree": sc.tree, "structured": sc.kw["structured"], "exits": res["exits"]})
+    batch.judge(v, {"C06"})
+    v.cov["rule"] = ("check, edit, check, edit on model pre-states in both styles (second edit must change no byte and leave the lock "
+                     "value), then lock removed + statement added + edit: the new ID must exceed every ID written before (read-back)")
+    return v.finish()
+
+
+def follow_readback(h):
+    cur = {n: [dict(x) for x in h.tree[n]] for n in h.names if h.present[n]}
+    if not cur:
+        return
+    n0 = sorted(cur)[0]
+    cur[n0].append(S(900))
+    h.dev(cur)
+    h.run("edit")
+    h.run("check")
+
+
+rl.FOLLOW["readback"] = follow_readback
+
+
 def c07(tier):
     v = Verdict("C07", tier)
     model_step(v, "intended/C07.cfg", need=("RenameTmp", "Drain", "FlushTmp", "Kill", "DropTmp"))
+    expect_counterexample(v, "asfound/C07noflush.cfg", ("AtomicFiles",))
     binary = common.build_breadlog()
     batch = rl.Batch()
     kinds = ["kill_before", "kill_after", "EIO", "ENOSPC", "EACCES", "EXDEV"]
@@ -23,11 +328,12 @@ def c07(tier):
         scens += rl.small_trees(structured=structured)
     scens.append(rl.sized_tree("sized-10k", 10000))
     if tier == "thorough":
+        kinds.append("short")
         scens.append(rl.sized_tree("sized-200k", 200000, nfiles=2))
         scens.append(rl.sized_tree("sized-1m", 1100000, nfiles=1, structured=True))
-    extra = {"notes.txt": "not a source file\n", "src/readme.md": "out of scope\n"}
+        scens += rl.small_trees(structured=False, lock=30)
     for sc in scens:
-        sc.kw["extra_files"] = extra
+        sc.kw["extra_files"] = EXTRA
         K, n = rl.sweep(binary, sc, "edit", kinds, batch, v)
         log("[sweep] %s: %d operations, %d runs" % (sc.name, K, n))
     batch.judge(v, {"C07"})
@@ -42,9 +348,9 @@ def c07(tier):
 def c08(tier):
     v = Verdict("C08", tier)
     model_step(v, "intended/C08.cfg", need=("CreateTmp", "RenameTmp", "Drain", "FlushTmp", "Exit"))
+    expect_counterexample(v, "asfound/C08ignored.cfg", ("FailureMeansNonZero", "ExitZeroDone"))
     binary = common.build_breadlog()
     batch = rl.Batch()
-    follow = lambda h: h.run("check")
     errs = ["EIO", "ENOSPC", "EACCES", "EXDEV"] if tier == "thorough" else ["EIO", "EXDEV", "ENOSPC"]
     scens = []
     for structured in (False, True):
@@ -54,9 +360,8 @@ def c08(tier):
         scens.append(rl.sized_tree("sized-300k", 300000, structured=True))
     tmpops = ("tmp.create", "tmp.write", "tmp.rename", "tmp.fsync", "tmp.unlink")
     for sc in scens:
-        K, n = rl.sweep(binary, sc, "edit", errs + ["short"], batch, v, follow=follow, only_ops=tmpops)
+        K, n = rl.sweep(binary, sc, "edit", errs + ["short"], batch, v, follow="check", only_ops=tmpops)
         log("[sweep] %s: %d operations, %d runs" % (sc.name, K, n))
-        # multiple simultaneous failures on any subset of the files
         multi = []
         for op in ("open,path=.tmp", "write,path=.tmp", "rename"):
             for nth in (0, 2):
@@ -65,7 +370,6 @@ def c08(tier):
         multi.append([("edit", "op=rename,nth=1:errno=18;op=write,path=.tmp,nth=3:errno=5"), ("check", "")])
         multi.append([("edit", "op=open,path=.tmp,nth=1:errno=13;op=rename,nth=1:errno=5"), ("check", "")])
         rl.planned_runs(binary, sc, multi, batch, v)
-    # a temporary directory on a different filesystem from the sources: a genuine EXDEV
     for structured in (False, True):
         for sc in rl.small_trees(structured=structured):
             sc.kw["tmp_on_other_fs"] = True
@@ -79,22 +383,61 @@ def c08(tier):
     return v.finish()
 
 
+def c16(tier):
+    v = Verdict("C16", tier)
+    model_step(v, "intended/C16.cfg", need=("ReadLock", "LockWrite", "Pass1File", "Discover"))
+    binary = common.build_breadlog()
+    batch = rl.Batch()
+    trees = [{"f1.rs": [S(11), S(12, ref=30)], "f2.rs": [S(21)]},
+             {"f1.rs": [S(11, ref=30)], "f2.rs": [S(21, ref=31)]}]
+    extra = dict(EXTRA)
+    extra["src/other.txt"] = 'fn f() { info!("s77 value {}", x); }\n'
+    extra["src/upper.RS"] = 'fn f() { info!("s78 value {}", x); }\n'
+    n = 0
+    for use_cache in (None, True, False):
+        for skey in ("omitted", "explicit"):
+            for structured in ((False,) if skey == "omitted" else (False, True)):
+                for ext in (None, ["rs"], ["rs", "txt"]):
+                    for lock in (None, 50, 3, "corrupt", "empty"):
+                        for tree in trees:
+                            sc = rl.Scenario("cfg-%d" % n, tree, lock=lock, structured=structured, use_cache=use_cache,
+                                             structured_key=skey, extensions=ext if ext != ["rs", "txt"] else ["rs"],
+                                             extra_files=extra)
+                            n += 1
+                            sig = {"use_cache": str(use_cache), "structured_key": skey, "extensions": str(ext), "lock": str(lock)}
+                            # two-run behaviour: edit; developer deletes the highest statement and adds one; edit; check
+                            rl.planned_runs(binary, sc, [[("check", "")], [("edit", "")]], batch, v, sigbase=sig)
+                            rl.planned_runs(binary, sc, [[("edit", "")]], batch, v, sigbase=sig, follow="c02")
+    for cc in ("missing", "invalid", "nosourcedir", "sourcedirfile", "noinscope", "nomacros"):
+        for mode in ("check", "edit"):
+            for lock in (None, 9):
+                sc = rl.Scenario("cfgerr-%s" % cc, {"f1.rs": [S(11)], "f2.rs": [S(21, ref=3)]}, lock=lock, config_class=cc,
+                                 extra_files=extra)
+                rl.planned_runs(binary, sc, [[(mode, "")]], batch, v, sigbase={"config_class": cc})
+    batch.judge(v, {"C16"})
+    v.cov["exhaustive"] = True
+    v.cov["rule"] = ("all combinations of use_cache {omitted,true,false} x structured {omitted,false,true} x extensions {omitted,[rs]} x "
+                     "lock {absent, ahead, behind, corrupt, empty} x tree class x mode, each also as a two-run history; configuration error "
+                     "classes in both modes; distinct = (configuration, steps)")
+    return v.finish()
+
+
 def c18(tier):
     v = Verdict("C18", tier)
     model_step(v, "intended/C18.cfg", need=("Signal", "Discover", "ScanFile", "Pass1File", "Pass2Next", "LockWrite"))
     r = run_tlc("MCRun.tla", "intended/C18live.cfg", workers=min(8, common.NCPU), coverage=False)
     require_tlc_ok(r, "C18live")
     v.add_tlc(r, "intended/C18live.cfg (liveness: stop ~> exit)")
+    expect_counterexample(v, "asfound/C18sigint.cfg", ("ExitsByItself", "InterruptedCheckNeverPasses", "StopMeansNonZeroOrDone"))
     binary = common.build_breadlog()
     batch = rl.Batch()
     scens = []
     for structured in ((False, True) if tier == "thorough" else (False,)):
-        for lock in (None, 2):
-            for sc in rl.small_trees(structured=structured, lock=lock if lock is None else 40):
+        for lock in (None, 40):
+            for sc in rl.small_trees(structured=structured, lock=lock):
                 sc.name += "-lock%s" % lock
                 scens.append(sc)
-    # a tree with nothing missing: interrupted runs may legitimately exit 0 there
-    scens.append(rl.Scenario("all-referenced", {"f1.rs": [rl.S(11, ref=1)], "f2.rs": [rl.S(21, ref=2)]}))
+    scens.append(rl.Scenario("all-referenced", {"f1.rs": [S(11, ref=1)], "f2.rs": [S(21, ref=2)]}))
     for sc in scens:
         for mode in ("check", "edit"):
             K, n = rl.sweep(binary, sc, mode, ["INT", "TERM"], batch, v)
@@ -108,37 +451,4 @@ def c18(tier):
     return v.finish()
 
 
-def c04(tier):
-    v = Verdict("C04", tier)
-    model_step(v, "intended/C04.cfg", need=("ScanFile", "Signal", "Kill"))
-    binary = common.build_breadlog()
-    batch = rl.Batch()
-    extra = {"notes.txt": "not a source file\n", "src/readme.md": "out of scope\n"}
-    n = 0
-    for structured in (False, True):
-        for use_cache in (None, True, False):
-            for lock in (None, 7, "corrupt", "empty"):
-                for tree in ({"f1.rs": [rl.S(11), rl.S(12, ref=3)], "f2.rs": [rl.S(21)]},
-                             {"f1.rs": [rl.S(11, ref=1)], "f2.rs": [rl.S(21, ref=2), rl.S(22, kind="unusable")]},
-                             {"f1.rs": [rl.S(11)], "f2.rs": []}):
-                    for bad in ((), ("f2.rs",)):
-                        sc = rl.Scenario("cfg-%d" % n, tree, lock=lock, structured=structured, use_cache=use_cache,
-                                         bad=bad, extra_files=extra)
-                        n += 1
-                        rl.planned_runs(binary, sc, [[("check", "")]], batch, v,
-                                        sigbase={"use_cache": use_cache, "lock": str(lock)})
-    # runs that fail: every operation failing / signalled / killed
-    kinds = ["EIO", "EACCES", "TERM", "INT", "kill_after"] if tier == "thorough" else ["EIO", "TERM", "kill_after"]
-    for structured in (False, True):
-        for sc in rl.small_trees(structured=structured, lock=5):
-            sc.kw["extra_files"] = extra
-            K, k = rl.sweep(binary, sc, "check", kinds, batch, v)
-    batch.judge(v, {"C04"})
-    v.cov["rule"] = ("--check on every combination of (structured, use_cache omitted/true/false, lock absent/valid/corrupt/"
-                     "empty, tree class, unreadable file), plus faults/signals/kill at every operation of a check run; "
-                     "no mutating operation in the trace and an identical deep snapshot (names, types, modes, inodes, "
-                     "mtimes, contents) of project, config and temp directories")
-    return v.finish()
-
-
-TABLE = {"C07": c07, "C08": c08, "C18": c18, "C04": c04}
+TABLE = {"C01": c01, "C02": c02, "C04": c04, "C05": c05, "C06": c06, "C07": c07, "C08": c08, "C16": c16, "C18": c18}
